@@ -38,6 +38,9 @@ func (fr *Frame) specEnv(st *State) *SpecEnv {
 		if !ok {
 			continue
 		}
+		if fr.unitHi != 0 && (v.Pos() < fr.unitLo || v.Pos() > fr.unitHi) {
+			continue // a variable of an inlined callee
+		}
 		if b, ok := best[v.Name()]; !ok || v.Pos() > b.Pos() {
 			best[v.Name()] = v
 		}
@@ -186,6 +189,28 @@ func (fr *Frame) dynamicCall(st *State, c *ast.CallExpr) []Val {
 	}
 	if lit != nil && fr.depth < 5 {
 		return fr.inlineLit(st, c, lit, owner)
+	}
+	if id, ok := ast.Unparen(c.Fun).(*ast.Ident); ok && fr.contract != nil && fr.contract.FnSpecs[id.Name] != "" {
+		// function-typed parameter with a declared contract (assumed; listed)
+		for _, a := range c.Args {
+			fr.argEval(st, a)
+		}
+		x.used("fnspec " + id.Name + ": " + fr.contract.FnSpecs[id.Name] + " (assumed contract of a function-typed parameter)")
+		sig, _ := fr.typeOf(c.Fun).Underlying().(*types.Signature)
+		if sig == nil {
+			return nil
+		}
+		res := fr.sigResults(sig, id.Name)
+		n := len(res)
+		if n > 0 && types.Identical(sig.Results().At(n-1).Type(), errT()) {
+			for i := 0; i < n-1; i++ {
+				if _, isPtr := sig.Results().At(i).Type().Underlying().(*types.Pointer); isPtr {
+					x.u.gfact(st.pc, fmt.Sprintf("(= (= %s 0) (not (= %s 0)))", res[n-1].T, res[i].T))
+					x.u.gfact(st.pc, fmt.Sprintf("(< %s %s)", res[i].T, st.next))
+				}
+			}
+		}
+		return res
 	}
 	for _, a := range c.Args {
 		fr.argEval(st, a)
@@ -443,7 +468,7 @@ func (fr *Frame) inlineLit(st *State, c *ast.CallExpr, lit *ast.FuncLit, owner *
 	x := fr.x
 	sig := owner.info.Types[lit].Type.(*types.Signature)
 	sub := &Frame{x: x, pkg: owner.pkg, info: owner.info, sig: sig, safe: fr.safe, depth: fr.depth + 1,
-		fnName: owner.fnName + "$lit", inlineStack: fr.inlineStack, contract: owner.contract, specNames: owner.specNames, modsInfo: owner.modsInfo,
+		fnName: owner.fnName + "$lit", inlineStack: fr.inlineStack, contract: owner.contract, specNames: owner.specNames, modsInfo: owner.modsInfo, unitBody: owner.rootBody(), unitLo: owner.unitLo, unitHi: owner.unitHi,
 		loopOrd: map[string]int{}, atOrd: map[string]int{}, closureOrd: map[string]int{}, body: lit.Body}
 	var argv []Val
 	for _, a := range c.Args {
